@@ -136,6 +136,20 @@ def worker(states):
                                                  spelling=name, text=repr(spec))))
             elif len(out['samples']) < 1 and len(ops) == 2 and pred['ok'] and len(st['heap']) > 2:
                 out['samples'].append(dict(heap=st['heap'], text=repr(spec), pred=pred))
+        # the same steps rooted in the scope: S['v'] names the target, every child of a wildcard is the
+        # target of the remaining steps (positions of failures count the S['v'] step as well)
+        if all(o['op'] != 'P' for o in ops) and pred['ok']:
+            heap = codec.Heap(st['heap'], CLASSES, fns=tspec.FNS)
+            spec = tspec.build_t(ops, heap, root=glom.S['v'])
+            try:
+                res = glom.glom(None, spec, scope={'v': heap.val(st['root'])})
+                obs = {'ok': True, 'v': tspec.canon(heap, res), 'err': '', 'idx': -1, 'exc': ''}
+            except Exception as e:
+                obs = {'ok': False, 'v': {'k': 'none'}, 'err': codec.exc_class_name(e), 'idx': -1, 'exc': ''}
+            out['n'] += 1
+            if obs['ok'] != pred['ok'] or obs['v'] != pred['v']:
+                out['bad'].append(dict(why='rooted in the scope the same steps give %s, expected %s for %r [S]' % (obs, pred['v'], spec),
+                                       case=dict(heap=st['heap'], root=st['root'], ops=ops, pred=pred, obs=obs, spelling='S', text=repr(spec))))
     return out
 
 
